@@ -17,3 +17,13 @@ class Prop(RefProp):
             'sleep, errorOnMax) and both; virtual clock records every sleep. Monitor: reference interpreter: '
             '(i, whileCounter) at every execution, sleeps, LoopMaxExhausted outcome')
     trusted_base = EngineProp.engine_trusted
+
+    def generate(self, rng, n, tier):
+        import gen_pipes
+        cases = []
+        for _ in range(n):
+            case = gen_pipes.gen_case(rng, self.profile)
+            if rng.random() < 0.05:
+                gen_pipes.falsy_item_call(rng, case)
+            cases.append(case)
+        return cases
